@@ -4,6 +4,7 @@ import LivesimVerif.Model.Scte
 import LivesimVerif.Model.Subs
 import LivesimVerif.Model.Chunk
 import LivesimVerif.Model.Patch
+import LivesimVerif.Model.Ttml
 import Driver.Util
 import Driver.Recv
 import Driver.Core
@@ -132,6 +133,26 @@ def opLeaf (args : List String) : String :=
     | _, _, _ => "bad-op"
   | _ => "bad-op"
 
+/-! ### C01 (TTML clause): `ttml <doc-with-_-for-space> <shiftMS>`, `tshift <timeShift> <timescale>` -/
+def opTtml (args : List String) : String :=
+  match args with
+  | [doc, sh] =>
+    match sh.toNat? with
+    | some sh => "ok " ++ Ttml.shiftTTML doc sh
+    | none => "bad-op"
+  | _ => "bad-op"
+
+def opTshift (args : List String) : String :=
+  match args.mapM (·.toNat?) with
+  | some [ts, T] =>
+    if T = 0 then "bad-op" else
+    let v := Ttml.stppShiftMS ts T
+    -- float tie zone: the exact value is within 10⁻³ of a half
+    let rem := (2 * ts * 1000) % (2 * T)
+    let d := if rem ≥ T then rem - T else T - rem
+    if d * 1000 ≤ 2 * T then s!"ALT ms={(2 * ts * 1000) / (2 * T)} || ms={(2 * ts * 1000) / (2 * T) + 1}" else s!"ms={v}"
+  | _ => "bad-op"
+
 def step (st : DState2) (line : String) : DState2 × String :=
   match (line.trimAscii.toString.splitOn " ").filter (· ≠ "") with
   | "parse" :: args => (st, opParse args)
@@ -162,6 +183,8 @@ def step (st : DState2) (line : String) : DState2 × String :=
   | "sess" :: args => (st, opSess st.core args)
   | "chan" :: args => (st, opChan args)
   | "tracks" :: args => (st, opTracks args)
+  | "ttml" :: args => (st, opTtml args)
+  | "tshift" :: args => (st, opTshift args)
   | _ => (st, "bad-op")
 
 partial def loop (h : IO.FS.Stream) (out : IO.FS.Stream) (st : DState2) : IO Unit := do
